@@ -385,8 +385,34 @@ EXACT_CONCRETE_SQRT = [False]   # measure families: math.sqrt of a concrete non-
 ROUND_EXACT = [False]      # C19 switches the exact decimal rounding model on
 
 
+# Concrete (float) runs: every quantity the library rounds for a hash is monitored.  The properties admit a case only
+# if no hashed quantity lies within float-noise distance (5e-13) of a decimal rounding boundary of the hash; a float
+# replay that touched such a boundary is inadmissible (run.run_concrete reads BOUNDARY_HITS).
+BOUNDARY_NOISE = 5e-13
+BOUNDARY_HITS = []
+BOUNDARY_MODE = [None]      # None | 'down' | 'up': snap every boundary-near value consistently to one side
+
+
+def _boundary_monitor(x, n):
+    try:
+        s = abs(x) * 10.0 ** n
+        if s < 2.0 ** 52:
+            d = abs((s - _M['floor'](s)) - 0.5)
+            if d <= BOUNDARY_NOISE * 10.0 ** n:
+                BOUNDARY_HITS.append((x, n))
+                if BOUNDARY_MODE[0] == 'down':
+                    return x - math.copysign(2 * BOUNDARY_NOISE, x)
+                if BOUNDARY_MODE[0] == 'up':
+                    return x + math.copysign(2 * BOUNDARY_NOISE, x)
+    except (OverflowError, ValueError, TypeError):
+        pass
+    return x
+
+
 def round_shim(x, n=None):
     if core.ENG is None:
+        if n is not None and isinstance(x, _real_float):
+            x = _boundary_monitor(x, n)
         return _real_round(x, n) if n is not None else _real_round(x)
     if isinstance(x, SymNum) and ROUND_EXACT[0] and n is not None:
         return SymNum(Poly.var(core.ENG.round_atom(x.p, n)))
